@@ -341,3 +341,38 @@ Lemma nearmiss_model :
   forallb (fun s => negb (sv_valid s)) ("" :: nearmiss) = true /\
   forallb nearmiss_new_ok nearmiss = true /\ forallb nearmiss_installed_ok nearmiss = true.
 Proof. vm_compute. repeat split; reflexivity. Qed.
+
+(* ====================================================================== *)
+(* 7. the reasons of a refusal are those the property lists                *)
+(* ====================================================================== *)
+
+(* every refusal is: an unusable source or invalid / misnamed metadata (candidate = None), or,
+   without overwrite, a working plugin of that name whose version is not strictly lower (one of
+   the three version errors), or, without overwrite, a broken plugin of that name *)
+Theorem refusal_reasons tbl st src ow st' r e :
+  source_ok src = true -> install tbl st src ow = (st', r) -> r_err r = Some e ->
+  candidate tbl src = None \/
+  (ow = false /\ exists n v a, candidate tbl src = Some (n, v) /\ existing tbl st n = Some a /\
+     match a with
+     | AOk en ev => ~ higher v ev /\ is_version_err e = true
+     | _ => True
+     end).
+Proof.
+  intros Hwf Hi He.
+  pose proof (c20_install_result tbl st src ow st' r Hwf Hi) as H.
+  unfold verdict in H. destruct (candidate tbl src) as [[n v]|] eqn:Hc; [right|left; reflexivity].
+  destruct (existing tbl st n) as [a|] eqn:Hex.
+  2:{ destruct H as [_ ->]. discriminate. }
+  destruct a as [en ev| | | |].
+  - destruct (ow || sv_higher v ev) eqn:Hb.
+    + destruct H as [_ ->]. discriminate.
+    + apply orb_false_iff in Hb. destruct Hb as [-> Hh]. split; [reflexivity|].
+      exists n, v, (AOk en ev). repeat split; try reflexivity; try assumption.
+      * intros Hhi. apply c20_sv_higher_iff in Hhi. congruence.
+      * destruct H as [_ [e' [-> [_ Hcl]]]]. cbn in He. injection He as ->.
+        apply (Hcl n v en ev); [exact Hc|exact Hex].
+  - destruct ow; [destruct H as [_ ->]; discriminate|]. split; [reflexivity|]. exists n, v, AInvalid. auto.
+  - destruct ow; [destruct H as [_ ->]; discriminate|]. split; [reflexivity|]. exists n, v, AMisnamed. auto.
+  - destruct ow; [destruct H as [_ ->]; discriminate|]. split; [reflexivity|]. exists n, v, AFail. auto.
+  - destruct ow; [destruct H as [_ ->]; discriminate|]. split; [reflexivity|]. exists n, v, AAbsent. auto.
+Qed.
